@@ -93,6 +93,17 @@ def descOfCols (strings : List Str) (libAt : Nat → Option Str) (cats : List (S
 def descOfFrame (s : SerProfile) (t : SerThread) (k : Frame) : Option FrameDesc :=
   descOfCols t.strings (fun l => s.libs[l]?) s.cats t.nsAddr t.nsSize t.nsLib t.nsName k
 
+/-- what native symbol row `j` says, index-free: library identity, address, size, name -/
+def nsymOfCols (strings : List Str) (libAt : Nat → Option Str) (nsAddr : List Nat) (nsSize : List (Option Nat))
+    (nsLib nsName : List Nat) (j : Nat) : Option (Str × Nat × Option Nat × Str) :=
+  match (nsLib[j]?).bind libAt, nsAddr[j]?, nsSize[j]?, (nsName[j]?).bind (strings[·]?) with
+  | some nl, some na, some nsz, some nn => some (nl, na, nsz, nn)
+  | _, _, _, _ => none
+
+/-- row `j` of the serialized `nativeSymbols` table -/
+def decodeNsym (s : SerProfile) (t : SerThread) (j : Nat) : Option (Str × Nat × Option Nat × Str) :=
+  nsymOfCols t.strings (fun l => s.libs[l]?) t.nsAddr t.nsSize t.nsLib t.nsName j
+
 /-- every resource row is named after its library: `stringArray[resourceTable.name[r]]` is the display
 name (`LibraryInfo::name`) of `libs[resourceTable.lib[r]]` -/
 def resNamesOk (s : SerProfile) (t : SerThread) : Bool :=
@@ -110,6 +121,10 @@ def decodeFrame (s : SerProfile) (t : SerThread) (i : Nat) : Option FrameDesc :=
 def P.descOf (p : P) (th : Thread) (k : Frame) : Option FrameDesc :=
   descOfCols th.strings.table.strings p.libs.getLibName (p.cats.map (fun c => (c.name, c.color, c.subs)))
     th.nsyms.addrs th.nsyms.sizes th.nsyms.libs th.nsyms.names k
+
+/-- native symbol row `j` of a thread in a model state -/
+def P.nsymDescOf (p : P) (th : Thread) (j : Nat) : Option (Str × Nat × Option Nat × Str) :=
+  nsymOfCols th.strings.table.strings p.libs.getLibName th.nsyms.addrs th.nsyms.sizes th.nsyms.libs th.nsyms.names j
 
 /-! ### what the caller of a frame method supplies (specification side) -/
 
